@@ -430,5 +430,8 @@ def jobs(tier):
            ("comparison-filter", lambda j: job_comparison(j, True)), ("comparison-nofilter", lambda j: job_comparison(j, False)),
            ("comparison-window2", lambda j: job_comparison(j, False, 2))]
     if tier != "quick":
-        out += [("profiles-big", lambda j: job_profiles(j, 4, 7)), ("recovery-plots-6", lambda j: job_recovery_plots(j, 6))]
+        out += [("profiles-big", lambda j: job_profiles(j, 4, 7)), ("recovery-plots-6", lambda j: job_recovery_plots(j, 6)),
+                ("profiles-6x12", lambda j: job_profiles(j, 6, 12)), ("recovery-plots-10", lambda j: job_recovery_plots(j, 10)),
+                ("comparison-window3", lambda j: job_comparison(j, False, 3)),
+                ("profiles-8x20", lambda j: job_profiles(j, 8, 20)), ("recovery-plots-16", lambda j: job_recovery_plots(j, 16))]
     return out
